@@ -34,7 +34,7 @@ ASSUMPTIONS = [
     'generated - which of them answers is left open); the records of a mocker that is not active are not judged',
 ]
 SHARDS = {'quick': 4, 'thorough': 16}
-TIMEOUT = {'quick': 400, 'thorough': 2400}
+TIMEOUT = {'quick': 900, 'thorough': 3600}
 ANCHORS = [
     ('pjrpc/client/integrations/pytest.py', 'PjRpcMocker.add'), ('pjrpc/client/integrations/pytest.py', 'PjRpcMocker.replace'),
     ('pjrpc/client/integrations/pytest.py', 'PjRpcMocker.remove'), ('pjrpc/client/integrations/pytest.py', 'PjRpcMocker.reset'),
